@@ -35,6 +35,7 @@ def run(ctx):
         ('CAST', 'posfix::bad_cast', 'posfix::good_cast', lambda p, B: check_casts(p, B, 'x')),
         ('PANIC', 'posfix::bad_index', 'posfix::good_index', lambda p, B: check_panics(p, B, 'x')),
         ('ALLOC', 'posfix::bad_alloc', 'posfix::good_alloc', lambda p, B: check_allocs(p, B, 'x')),
+        ('CHARBOUND', 'posfix::bad_truncate', 'posfix::good_truncate', lambda p, B: check_panics(p, B, 'x', kinds=('partial', 'charbound'))),
     ]
     for fam, bad, good, fn in cases:
         for path, want in ((bad, 'bad'), (good, 'ok')):
